@@ -63,15 +63,14 @@ def check_commute(new_op, current, c, leaf_rows, base_rows=None):
     def viol(kind, detail):
         v.append({"kind": kind, "mech": classify(new_op, current), "detail": f"{pair}: new={new_op} current={current} -> first={c.first} second={c.second} done={c.done}: {detail}"})
 
-    if c.first is None:
+    if c.first is None and not c.done:
         bump("refused")
         if c.second is not current.operation and c.second != current.operation:
             viol("refusal_changed_operation", "no move reported but second is not the existing operation")
-        if c.done and not isinstance(new_op, R.Identity):
-            # done with nothing applied: only sound if new op does nothing
-            pass
         return v
-    bump("full" if c.done else "partial")
+    # first=None with done=True is documented as "the original operation simplifies away
+    # entirely": the commuted sequence is ``second`` alone and has to equal existing-then-new
+    bump(("dropped_entirely" if c.first is None else "full") if c.done else "partial")
     if base_rows is None:
         try:
             base_rows, _ = interp.eval_tree(current.target, leaf_rows)
@@ -89,7 +88,7 @@ def check_commute(new_op, current, c, leaf_rows, base_rows=None):
             bump("unsupported_operation")
             return v
         try:
-            g, gcols = interp.apply_unary(c.first, rows, tcols, leaf_rows)
+            g, gcols = (list(rows), tcols) if c.first is None else interp.apply_unary(c.first, rows, tcols, leaf_rows)
         except interp.IllFormed as e:
             viol("first_illformed", str(e))
             return v
